@@ -212,10 +212,25 @@ class VG:
 
     def get_field(self, path):
         if path not in self.fields:
+            comps = sorted(k for k in self.fields if k.startswith(path + '.') and k[len(path) + 1:].isdigit())
+            if comps and [k[len(path) + 1:] for k in comps] == [str(i) for i in range(len(comps))]:
+                # a tuple-typed field whose components have been written individually: the whole is their tuple
+                return ('tuple', tuple(self.fields[k] for k in comps))
             self.fields[path] = ('in', path)
         return self.fields[path]
 
     def set_field(self, path, t, node=None):
+        if isinstance(t, tuple) and t and t[0] == 'tuple':
+            # a tuple-typed field written as a whole: its components are the cells `path.0`, `path.1`, ..
+            for i, x in enumerate(t[1]):
+                self.set_field('%s.%d' % (path, i), x, node)
+            self.fields.pop(path, None)
+            return
+        if isinstance(t, tuple) and t and t[0] == 'struct' and isinstance(t[2], dict) and t[2] and any(k.startswith(path + '.') for k in list(self.fields)):
+            for k_, x in t[2].items():
+                self.set_field('%s.%s' % (path, k_), x, node)
+            self.fields.pop(path, None)
+            return
         self.fields[path] = t
         self.writes.append((path, t, tuple(self.pc), node))
 
@@ -367,6 +382,21 @@ class VG:
     def save(self):
         return (dict(self.fields), list(self.pc), self.dead, dict(self.frames[-1].locals), dict(self.child_epoch))
 
+    def merge_after_closure(self, saved, cond):
+        """The closure ran iff `cond`: every field / captured local it wrote is phi(cond, new, old); bindings created inside
+        the closure are dropped."""
+        before_f, before_l = saved[0], saved[3]
+        after_f = dict(self.fields)
+        after_l = dict(self.frames[-1].locals)
+        self.restore(saved)
+        for k_, t_ in after_f.items():
+            b_ = before_f.get(k_, ('in', k_))
+            if b_ != t_:
+                self.fields[k_] = phi(cond, t_, b_)
+        for k_, v_ in before_l.items():
+            if k_ in after_l and after_l[k_] != v_:
+                self.frames[-1].locals[k_] = phi(cond, after_l[k_], v_)
+
     def restore_pure(self, saved, node=None):
         """Restore the state saved before a closure was evaluated under a path condition. The closure is expected to be pure
         w.r.t. the view's fields: a write inside it would be lost by the restore, so it is reported (fail closed)."""
@@ -394,6 +424,9 @@ class VG:
                 return self.pat_cond(p['sub'], v)
             return TRUE
         inner = pat_is_some(p)
+        if inner is not None or pat_is_none(p):
+            if isinstance(v, tuple) and v and v[0] in ('ref', 'optref'):
+                v = self.read_place(v[1])      # matching `&mut self.opt` / `self.opt.as_mut()` tests the Option behind the reference
         if inner is not None:
             return conj([is_some(v), self.pat_cond(inner, payload(v))])
         if pat_is_none(p):
@@ -455,7 +488,8 @@ class VG:
             return
         inner = pat_is_some(p)
         if inner is not None:
-            if isinstance(v, tuple) and v and v[0] == 'optref':
+            if isinstance(v, tuple) and v and v[0] in ('optref', 'ref'):
+                # `Some(x)` matched against a (mutable) reference to an Option place binds x to a reference into its payload
                 self.bind_pat(inner, ('ref', ('payload', v[1])), fr)
             else:
                 self.bind_pat(inner, payload(v), fr)
@@ -617,9 +651,12 @@ class VG:
             fields_before = dict(self.fields)
             r = self.value(e['r'], fr)
             self.pc.pop()
-            if any(fields_before.get(k_, ('in', k_)) != t_ for k_, t_ in self.fields.items()):
-                # the right operand of a short-circuit operator has a side effect on the state: it only happens conditionally
-                self.note_unknown('side-effect-in-short-circuit-operand', e)
+            cond_r = l if o == 'and' else neg_cond(l)
+            for k_, t_ in list(self.fields.items()):
+                b_ = fields_before.get(k_, ('in', k_))
+                if b_ != t_:
+                    # a side effect of the right operand happens only when it is evaluated
+                    self.fields[k_] = phi(cond_r, t_, b_)
             return op(o, l, r)
         l = self.value(e['l'], fr)
         r = self.value(e['r'], fr)
@@ -906,6 +943,17 @@ class VG:
             only_break = (els is not None and els.get('k') == 'block' and 'expr' not in els and len(els.get('stmts', [])) == 1
                           and strip(els['stmts'][0].get('e', {})).get('k') == 'break')
             clean = then is not None and not any(n.get('k') in ('break', 'continue', 'ret', 'try', 'loop', 'for') for n in walk(then))
+            if only_break and clean and iff['cond'].get('k') == 'letexpr':
+                # `while let Some(pat) = it.next() { body }` over an iterator held in a local is `for pat in it { body }`
+                c_ = iff['cond']
+                inner_pat = pat_is_some(c_['pat'])
+                init_ = strip(c_['init'])
+                if inner_pat is not None and init_.get('k') == 'call' and init_.get('method') == 'next' and len(init_.get('args', [])) == 1 \
+                        and strip(init_['args'][0]).get('k') == 'local':
+                    itv = fr.locals.get(strip(init_['args'][0])['id'])
+                    if isinstance(itv, tuple) and itv and itv[0] in ('iter', 'range', 'enumerate', 'take', 'skip', 'rev', 'copied', 'zip', 'iter_mut'):
+                        forn = {'k': 'for', 'pat': inner_pat, 'iter': init_['args'][0], 'body': then, 'ty': '()', 'sp': e.get('sp')}
+                        return self.v_for(forn, fr)
             if only_break and clean and iff['cond'].get('k') != 'letexpr':
                 once = {'k': 'if', 'cond': iff['cond'], 'then': then, 'ty': '()', 'sp': e.get('sp')}
                 self.value(once, fr)
@@ -1101,8 +1149,14 @@ class VG:
     def v_call(self, e, fr):
         name = callee_name(e)
         if name is None:
-            f = self.value(e['fexpr'], fr) if 'fexpr' in e else unk('callee')
-            args = [self.value(a, fr) for a in e['args']]
+            f = self.value_noderef(e['fexpr'], fr) if 'fexpr' in e else unk('callee')
+            if isinstance(f, tuple) and f and f[0] == 'ref':
+                f = self.deref(f)
+            args = [self.value_noderef(a, fr) for a in e['args']]
+            if isinstance(f, tuple) and f and f[0] == 'closure':
+                # a closure kept in a local and called later: evaluate its body at the call site (captures are by reference,
+                # so reading the enclosing locals at call time is the right semantics)
+                return self.apply_closure(f, args, fr)
             return self.note_unknown('indirect-call', e)
         short = name.split('::')[-1]
         c = e['callee']
@@ -1166,7 +1220,18 @@ class VG:
             return None
         name = cp[len(prefix):]
         if '.' in name:
-            return None
+            # a field of a nested concrete inner view reached through a reference (e.g. handed to a free helper function):
+            # resolve the owner first, then the field in the owner's type
+            owner, last = name.rsplit('.', 1)
+            oty = self.child_type(prefix, prefix + owner)
+            if oty is None or oty.get('adt') not in self.F.adts:
+                return None
+            sub = prefix + owner + '.'
+            if sub not in self.prefix_adt:
+                self.prefix_adt[sub] = oty['adt']
+                gens = self.F.adts[oty['adt']]['generics']
+                self.prefix_bind[sub] = dict(zip(gens, oty.get('args', [])))
+            return self.child_type(sub, cp)
         for fld in self.F.adts[adt]['variants'][0]['fields']:
             if fld['name'] == name:
                 ty = fld['ty']
@@ -1341,7 +1406,7 @@ class VG:
                     self.pc.append(is_some(od))
                     r = self.apply_closure(cl, [payload(od)], fr)
                     # closure side effects on fields are not expected; keep conservative state
-                    self.restore_pure(saved, e)
+                    self.merge_after_closure(saved, is_some(od))
                     return phi(is_some(od), some(r), NONE)
                 return self.note_unknown('option-map-non-closure', e)
             if short in ('take',):
@@ -1370,7 +1435,7 @@ class VG:
                             saved = self.save()
                             self.pc.append(neg_cond(is_some(cur)))
                             newv = d(self.apply_closure(cl, [], fr))
-                            self.restore_pure(saved, e)
+                            self.merge_after_closure(saved, neg_cond(is_some(cur)))
                         else:
                             fn_node = strip(e['args'][1])
                             fname = canon(fn_node.get('def', '')) if fn_node.get('k') == 'path' else ''
@@ -1391,12 +1456,12 @@ class VG:
                     saved = self.save()
                     self.pc.append(neg_cond(is_some(od)))
                     r = self.apply_closure(cl, [], fr)
-                    self.restore_pure(saved, e)
+                    self.merge_after_closure(saved, neg_cond(is_some(od)))
                     return phi(is_some(od), payload(od) if short == 'unwrap_or_else' else od, d(r) if short == 'unwrap_or_else' else r)
                 saved = self.save()
                 self.pc.append(is_some(od))
                 r = self.apply_closure(cl, [payload(od)], fr)
-                self.restore_pure(saved, e)
+                self.merge_after_closure(saved, is_some(od))
                 if isinstance(r, tuple) and r and r[0] == 'ref':
                     r = self.deref(r)
                 if short == 'filter':
@@ -1415,8 +1480,14 @@ class VG:
                         saved = self.save()
                         self.pc.append(neg_cond(is_some(od)))
                         dv = self.apply_closure(dcl, [], fr)
-                        self.restore_pure(saved, e)
+                        self.merge_after_closure(saved, neg_cond(is_some(od)))
                         return phi(is_some(od), r, d(dv))
+            if short == 'inspect' and len(argv) == 2 and isinstance(argv[1], tuple) and argv[1] and argv[1][0] == 'closure':
+                saved = self.save()
+                self.pc.append(is_some(od))
+                self.apply_closure(argv[1], [payload(od)], fr)
+                self.merge_after_closure(saved, is_some(od))
+                return od
             if short == 'or':
                 return phi(is_some(od), od, d(argv[1]))
             if short == 'and':
@@ -1526,7 +1597,7 @@ class VG:
                 saved = self.save()
                 self.pc.append(c)
                 r = self.apply_closure(cl, [], fr)
-                self.restore_pure(saved, e)
+                self.merge_after_closure(saved, c)
                 if isinstance(r, tuple) and r and r[0] == 'ref':
                     r = self.deref(r)
                 return phi(c, some(r), NONE)
@@ -1733,6 +1804,17 @@ class VG:
             red = ('reduce', kind, seq if seq is not None else it)
             byref = not _iter_copied(it)
             return phi(nonempty, some(red), NONE)
+        if short == 'next' and isinstance(it, tuple) and it:
+            rp = self.place_of(e['args'][0], fr)
+            base = self.read_place(it[1]) if it[0] == 'ref' else it
+            if it[0] == 'ref':
+                rp = it[1]
+            d_ = iter_desc(base) if isinstance(base, tuple) else None
+            if d_ is not None and d_[0] is not None and rp is not None and rp[0] == 'local':
+                cnt, item_fn = d_
+                first = self.deref(item_fn(lit(0, 'i')))
+                self.write_place(rp, ('skip', base, lit(1, 'i')), e)
+                return phi(op('gt', cnt, lit(0, 'i')), some(first), NONE)
         if short == 'map':
             return ('map', it, argv[1])
         if short == 'filter' and len(argv) == 2 and isinstance(argv[1], tuple) and argv[1] and argv[1][0] == 'closure':
